@@ -118,8 +118,42 @@ def kernels_writing(F, attrs):
     return out
 
 
-def is_float_derived(w, lin):
-    return any(t[0] in ("trunc",) for t in lin.terms())
+def _cast_source(w, term):
+    """The Num an integer cast term was made from (the walker replaces a value it cannot show to fit the target type by a fresh
+    `cast` term and records the cast event), or None."""
+    idx = getattr(w, "_cast_index", None)
+    if idx is None:
+        idx = {}
+        for c in w.events:
+            if c.kind == "cast" and isinstance(getattr(c, "result", None), Num) and isinstance(getattr(c, "arg", None), Num):
+                t = c.result.lin.single_term()
+                if t is not None and t[0] == "cast":
+                    idx[t] = c.arg
+        w._cast_index = idx
+    return idx.get(term)
+
+
+def uncast_value(w, v, depth=0):
+    """`v` with a top-level integer cast looked through (a Num that is exactly one `cast` term becomes the value that was cast)."""
+    if not isinstance(v, Num) or depth > 4:
+        return v
+    t = v.lin.single_term()
+    if t is not None and t[0] == "cast" and v.lin == Lin.term(t):
+        src_ = _cast_source(w, t)
+        if src_ is not None:
+            return uncast_value(w, src_, depth + 1)
+    return v
+
+
+def is_float_derived(w, lin, depth=0):
+    for t in lin.terms():
+        if t[0] == "trunc":
+            return True
+        if t[0] == "cast" and depth < 4:
+            src_ = _cast_source(w, t)
+            if src_ is not None and is_float_derived(w, src_.lin, depth + 1):
+                return True
+    return False
 
 
 # ---------------------------------------------------------------------------
